@@ -148,8 +148,9 @@ def finish(chk, seed=0):
             "no eqsig code is executed; dynamic features (setattr/exec/monkey-patching) are absent from eqsig/ (checked)"],
         "wall_s": round(wall, 3), "violations": len(new_viol),
     }
-    os.makedirs(os.path.join(VERIF, "evidence"), exist_ok=True)
-    with open(os.path.join(VERIF, "evidence", chk.pid + ".json"), "w") as f:
+    evdir = os.environ.get("VERIF_EVIDENCE_DIR") or os.path.join(VERIF, "evidence")
+    os.makedirs(evdir, exist_ok=True)
+    with open(os.path.join(evdir, chk.pid + ".json"), "w") as f:
         json.dump(ev, f, indent=1, default=str)
     print("property %s tier=%s: %d obligations, %d discharged, %d refuted (%d known), %d inconclusive; "
           "%d functions, %d call sites; %.2fs" % (chk.pid, chk.tier, len(chk.obs), ev["coverage"]["discharged"],
@@ -164,8 +165,9 @@ def finish(chk, seed=0):
         print("KNOWN-FINDING: property=%s %s at %s: %s" % (chk.pid, o.rule, o.construct, k.get("what", o.detail)))
     code = 0
     if new_viol:
-        os.makedirs(os.path.join(VERIF, "out", "replay"), exist_ok=True)
-        rp = os.path.join(VERIF, "out", "replay", "%s.json" % chk.pid)
+        rdir = os.environ.get("VERIF_REPLAY_DIR") or os.path.join(VERIF, "out", "replay")
+        os.makedirs(rdir, exist_ok=True)
+        rp = os.path.join(rdir, "%s.json" % chk.pid)
         with open(rp, "w") as f:
             json.dump({"property": chk.pid, "violations": [o.as_dict() for o in new_viol]}, f, indent=1, default=str)
         for o in new_viol:
